@@ -211,10 +211,22 @@ def cpprange(facts: CppFacts, parts=("write", "mask", "keepmask")):
 
         # ---- BcdView ---------------------------------------------------------------------------------------
         m, conj = split("BcdView")
-        highs = [b for b in (_bound_of(c, "value") for c in conj) if b]
+        bounds = [b for b in (_bound_of(c, "value") for c in conj) if b]
+        highs = [b for b in bounds if b[0] in ("<=", "<")]
+        blows = [b for b in bounds if b[0] in (">=", ">")]
         other = [c for c in conj if _bound_of(c, "value") is None and not _is_value_ok(c)]
-        if other or len(highs) != 1 or highs[0][0] not in ("<=", "<"):
+        if other or len(highs) != 1 or len(blows) > 1:
             raise AnalysisError("BcdView::CouldWriteValue: unrecognised conjunct structure")
+        # a templated argument (any integer type) needs the explicit `value >= 0`; a ValueType argument is unsigned already
+        cw = method("BcdView", "CouldWriteValue")
+        templated = not re.search(r"\bValueType\s+value\b", getattr(cw, "decl_text", "") or "")
+        if blows:
+            res.instances += 1
+            lo0 = _fold(blows[0][1], env_for(X.T(False, 8), 8), "BcdView lower bound", res, f"{m.file}|BcdView::CouldWriteValue|min",
+                        m.file, m.line, "BcdView::CouldWriteValue")
+            if lo0 is not None and (lo0.v if blows[0][0] == ">=" else lo0.v + 1) != 0:
+                res.add(f"{m.file}|BcdView::CouldWriteValue|min", "BcdView accepts values from a lower bound other than 0", m.file, m.line,
+                        "BcdView::CouldWriteValue")
         mv = method("BcdView", "MaxValue")
         functions["MaxValue"] = ([], X.parse(_return_expr(mv), type_names=TYPES), "ValueType", ())
         for k in range(1, 65):
